@@ -1443,7 +1443,14 @@ def run_sequence(prop: str, ses: Session, seed: int, extra: dict | None, model: 
     return outs
 
 
-def make_case(rng: random.Random, intensify: bool) -> tuple[dict, list[dict], Session] | None:
+BIG_SHARE = {"C14": 0.02, "C15": 0.05, "C16": 0.02}
+
+
+def make_case(rng: random.Random, intensify: bool, prop: str | None = None) -> tuple[dict, list[dict], Session] | None:
+    if rng.random() < BIG_SHARE.get(prop or "", 0.0):
+        # a large structure (dozens of ancestors, wide id range): no editing session before it
+        spec = G.gen_big_case(rng)
+        return spec, [], Session(spec)
     spec = G.gen_case(rng)
     ses = Session(spec)
     ops: list[dict] = []
@@ -1591,14 +1598,19 @@ def _one_case(prop: str, spec: dict, ops: list[dict], ses: Session, seed: int, r
     if any(v is None for _, a in g.nodes(data=True) for v in a.values()):
         res.count("has:none-valued-attribute")
     extra = _sel_extra(prop, tracks, seed)
-    co = run_check(prop, tracks, seed, extra)
+    big = bool(spec.get("big"))
+    if big:
+        # large structures go to the oracle only: the table-level Lean model is executable but its
+        # list-based lookups are quadratic, minutes per case at this size
+        res.count("size:big(oracle-only)")
+    co = run_check(prop, tracks, seed, extra, model=not big)
     if len(res.samples) < 3 and tracks.graph.number_of_nodes() >= 3 and ops:
         res.samples.append({"spec": {k: spec[k] for k in ("cfg", "ndim", "scale", "nodes", "edges") if k in spec},
                             "ops": ops[:10]})
     phases: list[tuple[CaseOut, dict]] = [(co, extra)]
     # ---- second phase on the SAME object: edit again (count-preserving re-linkings), export again
     rng2 = random.Random(seed ^ 0x5EED)
-    if stream == "random" and tracks.graph.number_of_edges() >= 1 and \
+    if stream == "random" and not big and tracks.graph.number_of_edges() >= 1 and \
             rng2.random() < {"C15": 0.65, "C14": 0.25, "C16": 0.25}[prop]:
         g0 = tracks.graph.copy()
         try:
@@ -1698,7 +1710,7 @@ def _shard(args) -> Result:
             _one_case(prop, fx["spec"], fx["ops"], ses, 12345, res, pend, seen, "fixed-corpus")
     for _ in range(ncases):
         try:
-            made = make_case(rng, intensify)
+            made = make_case(rng, intensify, prop)
         except Hang:
             res.count("skipped:editing-session-hang")
             continue
